@@ -425,6 +425,8 @@ LEVEL_LISTS = [
 def random_scenario(rnd, n_units, policy, district_office, levels, allow_mismatch=False, p_weird=0.45):
     units = []
     counties = ["c1", "c2", "c3"]
+    # district names of which one is a prefix of another ("1", "10"): joined names then sort differently from key tuples
+    dists, new_d = (["1", "10"], "2") if rnd.random() < 0.5 else (["d1", "d2"], "d9")
     for i in range(1, n_units + 1):
         if rnd.random() < p_weird:
             k = rnd.choice(KINDS[1:] + XKINDS + XKINDS + (["mismatch"] if allow_mismatch else []))
@@ -438,9 +440,9 @@ def random_scenario(rnd, n_units, policy, district_office, levels, allow_mismatc
                 rnd.choice(["S1", "S2"]),
                 rnd.choice(counties),
                 rnd.choice(["k1", "k2"]),
-                rnd.choice(["d1", "d2"]),
+                rnd.choice(dists),
                 rnd.choice(counties + ["c9"]),
-                rnd.choice(["d1", "d2", "d9"]),
+                rnd.choice(dists + [new_d]),
                 votes,
             )
         )
